@@ -283,7 +283,7 @@ class ConcFactory(object):
         # mixture: small grid-like values, boundary-ish values, wide values
         if r < 0.4:
             v = self.rng.choice([0.1, 0.2, 0.25, 0.5, 0.7, 1.0, 1.2, 1.5, 2.0, 3.0])
-        elif r < 0.8:
+        elif r < 0.93:
             v = self.rng.uniform(-3, 3)
         else:
             v = self.rng.uniform(-50, 50)
